@@ -70,6 +70,8 @@ def render_tree_project(doc, nl="\n", indent=""):
                 line, body = MIN_FORMS[k]
                 if "%d" in line:
                     line = line % i
+            if it.get("line"):             # explicit spelling of the keyword line (e.g. MACRO / PASTE naming one macro)
+                line = it["line"]
             emit(indent)
             b = poss[stack[-1]]
             emit(line + nl)
